@@ -338,6 +338,48 @@ def work_residue_arrays(chunk):
     return acc
 
 
+def work_readonly(chunk):
+    """the user function returns a read-only array (np.broadcast_to, a frozen result, np.diagonal ...): the library may
+    read it but must not write into it; value and estimate must be identical to those for a writable array"""
+    from numdifftools.limits import Limit, Residue
+    acc = fw.Acc()
+    for kind, gname, p, z0, method, path in chunk:
+        g = G[gname][0]
+        if kind == 'limit':
+            s = KERNELS['sin(w)/w']
+
+            def base(z, g=g, s=s, z0=z0):
+                return g(z) * s(z - z0)
+        else:
+            def base(z, g=g, z0=z0, p=p):
+                return g(z) / (z - z0) ** p
+
+        def frozen(z):
+            r = np.array(base(z))
+            r.setflags(write=False)
+            return r
+        res = {}
+        for name, f in (('writable', base), ('read-only', frozen)):
+            try:
+                with warnings.catch_warnings():
+                    warnings.simplefilter('ignore')
+                    with np.errstate(all='ignore'):
+                        obj = (Limit(f, method=method, path=path, full_output=True) if kind == 'limit' else
+                               Residue(f, pole_order=p, method=method, path=path, full_output=True))
+                        val, info = obj(np.array([z0, z0]) if kind == 'residue' else z0)
+                res[name] = fw.obs((val, info.error_estimate))
+            except Exception as e:      # noqa: BLE001
+                res[name] = ('raised', type(e).__name__, str(e)[:80])
+        same = res['read-only'] == res['writable']
+        jc = dict(kind='readonly', entry=kind, g=gname, p=p, z0=z0, method=method, path=path)
+        acc.case(tuple(sorted(jc.items(), key=str)), nontrivial=True, cell='readonly/%s' % kind, outcome=same)
+        if not same:
+            acc.violation('C18:%s:read-only-result-array' % ('Limit' if kind == 'limit' else 'Residue'), jc,
+                          '%s with a user function returning a read-only array: %s; writable: %s'
+                          % (kind, str(res['read-only'])[:150], str(res['writable'])[:150]), 1)
+    return acc
+
+
 def _mp_kernel(kname, w):
     return {'sin(w)/w': lambda w: mp.sin(w) / w, 'expm1(w)/w': lambda w: mp.expm1(w) / w,
             'log1p(w)/w': lambda w: mp.log1p(w) / w, 'w/sin(w)': lambda w: w / mp.sin(w),
@@ -377,11 +419,15 @@ def run(ctx):
     rjobs = [(g, pp, a, m, pth, lay) for g in gsel[:2] for pp in (1, 2, 3) for a in z0s[:2] + z0s[-1:] for m in METHODS
              for pth in PATHS for lay in ('1d', '2d-C', '2d-F', '2d-T')]
     acc.merge(ctx.pmap(work_residue_arrays, rjobs, chunk=8))
+    ro = [(kind, g, pp, z0, m, pth) for kind in ('limit', 'residue') for g in gsel[:1] for pp in ((1,) if kind == 'limit' else (1, 2, 3))
+          for z0 in z0s[:2] for m in METHODS for pth in PATHS]
+    acc.merge(ctx.pmap(work_readonly, ro, chunk=8))
     for j in jobs[:2] + jobs[len(jobs) // 2:len(jobs) // 2 + 2]:
         acc.sample(dict(kind=j[0], g=j[1], kernel_or_pole=j[2], z0=j[3], method=j[4], path=j[5], order=j[6], step_ratio=j[7]))
     acc.sample(dict(kind='array', pattern='SRS', meaning='singular, regular, singular point in one call'))
     req = ['limit/%s/%s' % (k, p) for k in ks for p in PATHS] + ['residue/pole%d/%s' % (pp, p) for pp in (1, 2, 3) for p in PATHS]
     req += ['array2/layout-2d-F', 'array2/layout-2d-T', 'residue-array/layout-2d-F', 'residue-array/layout-2d-T', 'residue-array/pole3']
+    req += ['readonly/limit', 'readonly/residue']
     req += ['limit/complex-z0', 'limit/real-z0', 'limit/below', 'limit/above', 'array/SRS', 'array/RS', 'array2/RAB', 'array2/ARBR']
     rule = ('full product %d g x %d kernels x %d z0 (real and complex) x {above, below} x {radial, spiral} x order 1..8 x '
             'step_ratio {2,4,8,16} on the real Limit; Residue with poles of order 1..3, orders p+1..p+4; every S/R pattern '
@@ -400,6 +446,8 @@ def replay(case):
     if case['kind'] == 'array2':
         a = work_arrays2([(case['g'], case['k1'], case['k2'], z0, case['pattern'], case['method'], case['path'],
                            case.get('layout', '1d'))])
+    elif case['kind'] == 'readonly':
+        a = work_readonly([(case['entry'], case['g'], case['p'], z0, case['method'], case['path'])])
     elif case['kind'] == 'residue-array':
         a = work_residue_arrays([(case['g'], case['p'], z0, case['method'], case['path'], case['layout'])])
     elif case['kind'] == 'array':
